@@ -275,4 +275,9 @@ def run_case(case):
             sig = f"rand|{case['sub']}"
     finally:
         shutil.rmtree(tmpdir, ignore_errors=True)
+    if t.checks == 0:
+        # every scenario of the case fell under 'existing output that may not be overwritten: refused' - counted, nothing to judge
+        r = core.held(0, nontrivial=False, counters=dict(t.counters))
+        r['metrics'] = {}
+        return r
     return t.result(sig=sig, sample=dict(case={k: (v if k != 'patterns' else v[:3] + ['...']) for k, v in case.items()}, patterns=t.counters.get('patterns')))
